@@ -802,6 +802,12 @@ class Flow:
                 if cb is not None and rest[0] == "$out":
                     return self._q(cb, 0, rest[1:], mode)
                 return {Src(("unknown", "item of closure"))}
+            if ak == "adt" and rest and isinstance(rest[0], str) and rest[0][:1] == "v" and rest[0][1:].isdigit():
+                # `if let Holder::Open(tx) = &holder`: the payload of variant N of a crate-local enum; a different variant
+                # (`Holder::Closed`) carries nothing
+                if rv.get("vidx") is not None and int(rest[0][1:]) != rv["vidx"]:
+                    return set()
+                rest = rest[1:]
             if rest and isinstance(rest[0], int):
                 if rest[0] < len(ops):
                     return self._q_operand(body, ops[rest[0]], rest[1:], mode)
